@@ -159,7 +159,7 @@ func (r *Report) Note(format string, a ...any) {
 type KnownFinding struct {
 	ID           string   `json:"id"`
 	Properties   []string `json:"properties"`
-	Key          string   `json:"key"`
+	Keys         []string `json:"keys"`
 	What         string   `json:"what"`
 	ReproducedBy string   `json:"reproduced_by,omitempty"`
 }
@@ -194,7 +194,13 @@ func LoadKnown(path string) (*KnownFile, error) {
 func (k *KnownFile) match(property, key string) *KnownFinding {
 	for i := range k.Findings {
 		f := &k.Findings[i]
-		if f.Key != key {
+		hit := false
+		for _, fk := range f.Keys {
+			if fk == key {
+				hit = true
+			}
+		}
+		if !hit {
 			continue
 		}
 		for _, p := range f.Properties {
